@@ -53,6 +53,16 @@ Theorem C27_drivers_agree (t : node) (ts : list node) (n : name) (p : list name)
 Proof. exact (styles_agree t ts n p). Qed.
 Print Assumptions C27_drivers_agree.
 
+(* tools/compiler.parse_all(paths, tree) called several times on one tree (package.mo in one call, `within` files in
+   another): adding the files batch by batch is the same left fold as adding them in one call, so every theorem
+   about [merge_compiler] covers every batching of every file order.  (That the real parse_all hooks each batch
+   into the caller's tree with Tree.extend is checked by the oracle: every partition of every permutation into
+   successive calls must give the tree / flattened models of the one-call run.) *)
+Theorem C27_compiler_batches (gs : list (list node)) :
+  merge_compiler (concat gs) = fold_left (fun t g => fold_left extend g t) gs empty_root.
+Proof. exact (merge_compiler_batches gs empty_root). Qed.
+Print Assumptions C27_compiler_batches.
+
 (* ---- the flattened models ----
    [flat E t top] (Model/C27_flat.v) is an executable model of the part of pymoca.tree.flatten that decides which
    variables the flat model of class `top` has: _find_class (nested classes, qualified imports, parent scopes,
